@@ -54,7 +54,7 @@ CFG = {
     "level_text": "C05: for every state satisfying the invariant (cursor on the screen, margins ordered and within the screen, all rows of both "
                   "grids exactly the terminal's width), every terminal size 1x1..65535x65535, EVERY parsed sequence with EVERY parameter list in Z, "
                   "every OSC payload, every DCS (under DecoderTame for sixel) and every resize, the model of the current code neither panics nor hangs "
-                  "and re-establishes the invariant (emu_safe_step, dcs_safe), lifted to all histories by induction (emu_safe_run, session_safe). Draw "
+                  "and re-establishes the invariant (emu_safe_step, dcs_safe), lifted to all histories by induction (emu_safe_run, session_safe; translated_session_safe: the same for runs through the code as translated from the source only — update()'s regenerated type switch, the regenerated dispatch tables and bodies, the translated resize()). Draw "
                   "writes only inside the host window (draw_clipped). The PTY goroutine never blocks in postEvent for any number of events and any "
                   "schedule (events_never_stall_current; translated_loop_never_stalls for the loop as translated from the source). The model functions ARE the Go bodies: for ALL control functions — 73 translated bodies (all of csi.go, c0.go, "
                   "esc.go incl. decsc/decrc/ris, mode.go sm/rm/decset/decrst/decrqm with every arm, sgr(), osc(), print, resize incl. the reflow loop "
